@@ -34,7 +34,7 @@ CFG = {
         "one case = one call of pipe.NormalizeSlotIndex (all pairs of 16-26 boundary hashes x 18 lane counts incl. 0 and negatives, plus random "
         "ones), or one forced schedule of one executor (random plan over run / submit / release gate / cancel context / Stop with 1-9 calls, "
         "queue sizes 0,1,2,3,8, MultiLine lane counts 1,2,7,509 with hashes from the boundary set and colliding partners, RunnerQ calls spread "
-        "over AsyncCall / AsyncDelegate / AsyncProc), or one unforced burst of 4-9 concurrent callers; a schedule case is non-trivial when at "
+        "over AsyncCall / AsyncDelegate / AsyncProc), or one unforced burst of 4-9 concurrent callers, or one stop-vs-submit round (fresh executor, 8-128 submitters and one Stop released from a barrier; 3800 rounds in the quick tier, 24000 thorough; every round is screened in Go by counters, the rounds the screen flags and a sample of the others are decided in Coq; \"accepted but never run\" is established positively - lane goroutines returned, caller consulted its context, callee never entered - not by a deadline); a schedule case is non-trivial when at "
         "least two calls were accepted, a slot case when the hash is negative or >= the lane count; distinct = distinct Coq term"),
     "trusted": [
         "forced-schedule driver: per-call gate channels, harness-owned context.Context counting Done() calls, waits on conditions over recorded facts with a 10 s bound that only a real hang can reach",
